@@ -135,6 +135,11 @@ func (t *template) layout(ctx context.Context, w io.Writer) error {
 			// Parse the template bytes to get DOM nodes
 			templateNodes, err := parser.ParseTemplateBytes(tpl.templateBytes)
 			if err == nil {
+				// These nodes are parsed here only to hand the page's named slots to the layout;
+				// identify their v-once elements like any other parsed template (without ids,
+				// distinct v-once elements of the page's slots all shared the empty id and the
+				// first one placed by the layout suppressed the others).
+				assignSeenAttrs(onceSlotPrefix+filename, templateNodes)
 				inheritedSlotScope = extractSlotsFromDOM(templateNodes)
 			}
 		}
